@@ -97,6 +97,10 @@ func (h *anteH) c14Msg(kind string, payer int, recips []int, ic implCfg) aMsg {
 		}
 		c = sdk.NewCoins(sdk.NewInt64Coin("ukex", amt))
 	}
+	if r.Rng.Intn(12) == 0 && len(c) > 0 {
+		// a look-alike of the first denomination: a different coin, on no list, never frozen by the lists as stored
+		c = sdk.NewCoins(sdk.NewCoin(lookalike(r, c[0].Denom), c[0].Amount)).Add(c[1:]...)
+	}
 	switch kind {
 	case "send":
 		return h.mkSend(payer, to, c)
@@ -151,6 +155,9 @@ func runC14(r *Rec) {
 					if r.Rng.Intn(8) == 0 {
 						// fee in a foreign (possibly frozen) token
 						d := pick(r, anteDenoms[:4])
+						if r.Rng.Intn(4) == 0 {
+							d = lookalike(r, d)
+						}
 						fee = sdk.NewCoins(sdk.NewInt64Coin(d, 2000))
 						tag += "fee:" + d
 					}
